@@ -55,7 +55,7 @@ Print Assumptions C02_no_false_model.
 
 (* enumeration ended by a level-0 conflict / a blocking clause without open literal: no model is missing *)
 Theorem C02_enum_complete_sound : forall N A limit evs s, run true N A limit evs = Some s ->
-  verdict s = Some RExhausted -> pures s = [] ->
+  verdict s = Some RExhausted ->
   forall a, models a N -> agrees a A ->
   exists m, In m (sols s) /\ forall l, In l m -> lit_true a l = true.
 Proof. exact MachineThms.enum_complete_thm. Qed.
@@ -93,7 +93,7 @@ Example C02_nonvacuous_enum :
   exists s, run true [[1; 2]; [-1; -2]] [] 10
               [EInit 2 [] [] []; ESolution [1; -2]; ELearn [-1; 2] true; ELearn [-1] false;
                ESolution [-1; 2]; ELearn [1; -2] true; EVerdict OPTIMAL] = Some s
-    /\ verdict s = Some RExhausted /\ pures s = [] /\ length (sols s) = 2%nat.
+    /\ verdict s = Some RExhausted /\ length (sols s) = 2%nat.
 Proof. vm_compute. eexists. repeat split. Qed.
 
 Example C02_luby_prefix_example :
